@@ -1,7 +1,7 @@
 (* C08/Property.v — property theorems only. *)
 From Coq Require Import String List Bool.
-From Verif Require Import Base.Str Base.Py C08.Model C08.Spec C08.Proofs C08.Source.
-From VerifGen Require Import C08Src.
+From Verif Require Import Base.Str Base.Py Base.Py2 C08.Model C08.Spec C08.Proofs C08.SeqProofs C08.Source C08.Source2.
+From VerifGen Require Import C08Src C08Src2.
 Import ListNotations.
 Open Scope list_scope.
 
@@ -215,6 +215,56 @@ Theorem c08_slo_first_source : forall m pref expected eids e b d,
 Proof. exact slo_sent_first_source. Qed.
 Print Assumptions c08_slo_first_source.
 
+(* ---- long-lived entities (round 3): sequences of operations and metadata refreshes, several entities ---- *)
+
+(* C08 along every sequence, of any length, on any number of entities: every outcome satisfies the spec
+   against the metadata the handling entity holds at that moment (after its latest successful refresh) *)
+Theorem c08_sequences : forall st steps, spec_seq st steps (run_seq st steps).
+Proof. intros st steps. exact (sequences_sound steps st). Qed.
+Print Assumptions c08_sequences.
+
+Theorem c08_spec_seq_reflect : forall st steps obs, spec_seq_b st steps obs = true <-> spec_seq st steps obs.
+Proof. intros st steps obs. exact (spec_seq_b_iff steps st obs). Qed.
+Print Assumptions c08_spec_seq_reflect.
+
+(* history independence: an operation's outcome depends on what went before only through the metadata the
+   handling entity holds; that metadata is what the entity's latest refresh loaded, and operations, failed
+   refreshes and refreshes of other entities leave it alone *)
+Theorem c08_seq_history_independent : forall st pre k o,
+  run_seq st (pre ++ [SOp k o]) = (run_seq st pre ++ [OOut (run_op (stores_after st pre k) o)])%list.
+Proof. exact seq_history_independent. Qed.
+Print Assumptions c08_seq_history_independent.
+
+Theorem c08_metadata_in_force : forall st pre k m post,
+  forallb (fun s => negb (reloads k s)) post = true ->
+  stores_after st (pre ++ SReload k m :: post) k = m.
+Proof. exact stores_after_latest. Qed.
+Print Assumptions c08_metadata_in_force.
+
+Theorem c08_metadata_untouched : forall st steps k,
+  forallb (fun s => negb (reloads k s)) steps = true -> stores_after st steps k = st k.
+Proof. intros st steps k. exact (stores_after_untouched steps st k). Qed.
+Print Assumptions c08_metadata_untouched.
+
+(* a consumer-service URL retired by a refresh is refused from then on, whatever was looked up before *)
+Theorem c08_retired_url_refused : forall st pre k m post etype prefs req bindings descr u,
+  forallb (fun s => negb (reloads k s)) post = true ->
+  rq_class req = MAuthn -> given (rq_url req) u -> bindings <> [B_SOAP] ->
+  (forall ep, publishes m (requester req) R_SP S_ACS ep -> ep_location ep <> u) ->
+  exists e, run_seq st (pre ++ SReload k m :: post ++ [SOp k (OpAnswer etype prefs req bindings descr)])
+            = (run_seq st (pre ++ SReload k m :: post) ++ [OOut (Fail e)])%list.
+Proof. exact retired_url_refused. Qed.
+Print Assumptions c08_retired_url_refused.
+
+(* for recorded sequences (those on which spec_seq_b evaluates to true): the outcome recorded for step i
+   satisfies the single-operation spec against the metadata the recorded refresh verdicts put in force *)
+Theorem c08_spec_seq_nth : forall st steps obs i k o,
+  spec_seq st steps obs -> nth_error steps i = Some (SOp k o) ->
+  exists out, nth_error obs i = Some (OOut out)
+              /\ spec (stores_seen st (firstn i steps) (firstn i obs) k) o out.
+Proof. intros st steps obs i k o. exact (spec_seq_nth steps st obs i k o). Qed.
+Print Assumptions c08_spec_seq_nth.
+
 (* the pinned snapshot's (inverted) verify_return violated the property *)
 Theorem c08_disco_v0_refuted : exists m eid url, ~ spec m (OpDisco eid url) (verify_return_v0 m eid url).
 Proof. exact disco_v0_refuted. Qed.
@@ -228,3 +278,94 @@ Theorem c08_source_verify_return : forall (lookup : pyval -> pyval) self eid url
   src_verify_return lookup self (PStr eid) (PStr url) = PBool (existsb (fun loc => startswith url loc) l).
 Proof. exact src_verify_return_is_model. Qed.
 Print Assumptions c08_source_verify_return.
+
+(* ---- source tie, translator v2: the functions below are re-translated from the CURRENT source text on every run
+   (coq/gen/C08Src2.v by harness/py2coq2.py; encodings and proofs in C08/Source2.v).  Each theorem: for ALL inputs
+   of the model's domain the translated function on the encoded input is the encoded output of the model function
+   (exceptions included); external calls are hypotheses (each shown satisfiable in Source2.v) ---- *)
+
+(* mdstore.py MetadataStore.service = Model.store_service: the first source that has the entity answers *)
+Theorem c08_source2_store_service :
+  forall (m : md) (eid typ svc : string) (ob : option string)
+         (md_service : pyval -> pyval -> pyval -> pyval -> pyval -> pyval),
+  (forall s : source, In s m ->
+     md_service (enc_source s) (PStr eid) (PStr typ) (PStr svc) (enc_ostr ob)
+     = match src_service typ svc eid s with
+       | Some l => PList (map enc_ep (filter (keep_ob ob) l))
+       | None => PNone
+       end) ->
+  (forall s : source, In s m -> plain_source s) ->
+  src2_store_service md_service (enc_store m) (PStr eid) (PStr typ) (PStr svc) (enc_ostr ob)
+  = enc_sres enc_ep (store_service m eid typ svc ob).
+Proof. exact src2_store_service_is_model. Qed.
+Print Assumptions c08_source2_store_service.
+
+(* mdstore.py MetadataStore.ext_service = Model.store_first (falls through to later sources); store_disco is the
+   instance the discovery service uses (Source2.src2_store_ext_service_disco) *)
+Theorem c08_source2_store_ext_service :
+  forall (A : Type) (enc : A -> pyval) (m : md) (eid typ svc : string) (ob : option string)
+         (get : source -> option (list A)) (keep : A -> bool)
+         (md_ext_service : pyval -> pyval -> pyval -> pyval -> pyval -> pyval),
+  (forall s : source, In s m ->
+     md_ext_service (enc_source s) (PStr eid) (PStr typ) (PStr svc) (enc_ostr ob)
+     = match get s with
+       | Some l => PList (map enc (filter keep l))
+       | None => PNone
+       end) ->
+  src2_store_ext_service md_ext_service (enc_store m) (PStr eid) (PStr typ) (PStr svc) (enc_ostr ob)
+  = enc_sres enc (store_first get keep m false).
+Proof. intros A. exact (@src2_store_ext_service_is_model A). Qed.
+Print Assumptions c08_source2_store_ext_service.
+
+(* client_base.py Base._sso_location = Model.sso_location (every path but the "too many IdPs" raise) *)
+Theorem c08_source2_sso_location :
+  forall (m : md) (b : string) (sso_service : pyval -> pyval -> pyval)
+         (with_descriptor_ locations_ : pyval -> pyval) (next_ : pyval -> pyval -> pyval),
+  (forall e : string, sso_service (PStr e) (PStr b) = enc_sres enc_ep (store_service m e R_IDP S_SSO (Some b))) ->
+  with_descriptor_ (PStr "idpsso") = PObj (map (fun e : string => (e, PStr "entity")) (with_idp m)) ->
+  match with_idp m with [] => True | e :: _ => e <> "__class__"%string end ->
+  (forall l : list endpoint, locations_ (PList (map enc_ep l)) = PList (map PStr (locations l))) ->
+  (forall (l : list pyval) (d : pyval), next_ (PList l) d = first_or d l) ->
+  forall eid : option string,
+  (truthy eid = None -> (length (with_idp m) <= 1)%nat) ->
+  src2_sso_location sso_service with_descriptor_ locations_ next_ (PStr "self") (enc_ostr eid) (PStr b)
+  = enc_out (sso_location m eid b).
+Proof. exact src2_sso_location_is_model. Qed.
+Print Assumptions c08_source2_sso_location.
+
+(* entity.py Entity.response_args = Model.response_args, whole function, every request class *)
+Theorem c08_source2_response_args :
+  forall (m : md) (svc0 etype : string) (prefs : list (string * list string)) (bindings : list string)
+         (cn mid issuer : string) (url idx pb : option string)
+         (pick_binding_ : pyval -> pyval -> pyval -> pyval -> pyval),
+  (forall rsrv descr : string,
+     pick_binding_ (PStr rsrv) (enc_strs bindings) (PStr descr) (ra_msg cn mid issuer url idx pb)
+     = enc_out (pick_binding m etype prefs rsrv bindings descr (Some (ra_req cn issuer url idx pb)) "")) ->
+  forall descr : string,
+  src2_response_args pick_binding_ (enc_entity svc0 etype prefs) (ra_msg cn mid issuer url idx pb)
+                     (enc_strs bindings) (PStr descr)
+  = enc_info cn mid issuer (response_args m etype prefs (ra_req cn issuer url idx pb) bindings descr).
+Proof. exact src2_response_args_is_model. Qed.
+Print Assumptions c08_source2_response_args.
+
+(* entity.py Entity.pick_binding = Model.pick_binding, whole function: entity id, bindings tried, descriptor type,
+   URL / index / default destination, every exception *)
+Theorem c08_source2_pick_binding :
+  forall (m : md) (etype : string) (prefs : list (string * list string)) (svc : string)
+         (sfunc : pyval -> pyval -> pyval -> pyval) (all_locations_ : pyval -> pyval)
+         (next_ : pyval -> pyval -> pyval),
+  In svc known_services ->
+  (forall eid b descr : string,
+     sfunc (PStr eid) (PStr b) (PStr descr) = enc_sres enc_ep (store_service m eid (typ_of svc descr) svc (Some b))) ->
+  (forall l : list endpoint, all_locations_ (PList (map enc_ep l)) = PList (map PStr (all_locations svc l))) ->
+  (forall (l : list pyval) (d : pyval), next_ (PList l) d = first_or d l) ->
+  match prefs with [] => True | (k, _) :: _ => k <> "__class__"%string end ->
+  forall (bindings : list string) (descr : string)
+         (req : option (string * string * string * option string * option string * option string))
+         (entity_id : string),
+  (forall q : request, model_req req = Some q -> end_ascii (strip (rq_issuer q)) = true) ->
+  src2_pick_binding sfunc all_locations_ next_ (enc_entity svc etype prefs) (PStr svc) (enc_strs bindings)
+                    (PStr descr) (enc_oreq req) (PStr entity_id)
+  = enc_out (pick_binding m etype prefs svc bindings descr (model_req req) entity_id).
+Proof. exact src2_pick_binding_is_model. Qed.
+Print Assumptions c08_source2_pick_binding.
